@@ -9,6 +9,7 @@ mod run;
 mod tree;
 mod front;
 mod misc;
+mod live;
 
 use std::io::{BufRead, Write};
 
@@ -28,6 +29,21 @@ thread_local! {
 
 fn main() {
     let args: Vec<String> = std::env::args().collect();
+    // The live-coding loop compiles WASM in a subprocess of the *current executable*
+    // (`<exe> <file> --backend=wasm --emit-wasm`): when spawned that way this binary is the CLI.
+    if args.iter().any(|a| a == "--emit-wasm") {
+        if let Some(home) = std::env::var_os("MMVERIF_HOME") {
+            // the CLI creates its config file under $HOME on first use: keep that inside the work directory
+            unsafe { std::env::set_var("HOME", home) };
+        }
+        match mimium_cli::lib_main() {
+            Ok(()) => std::process::exit(0),
+            Err(e) => {
+                eprintln!("{e}");
+                std::process::exit(1);
+            }
+        }
+    }
     if args.len() < 2 {
         eprintln!("usage: mmverif <cmd> [in.ndjson] (reads stdin when absent)");
         std::process::exit(2);
@@ -76,6 +92,7 @@ fn main() {
                     "compile" => misc::compile(&req),
                     "threads" => misc::threads(&req),
                     "rust" => misc::rust(&req),
+                    "live" => live::live(&req),
                     other => {
                         eprintln!("unknown command {other}");
                         std::process::exit(2);
